@@ -370,11 +370,15 @@ where
 
 /// Compute error signal from `QuantizedParameters`.
 ///
+/// Returns `false` if a residual is not representable as a 32-bit signed
+/// integer (excluding the most negative value), as the FLAC format requires.
+/// In that case the content of `errors` must not be used for encoding.
+///
 /// # Panics
 ///
 /// This function panics if `errors.len()` is smaller than `signal.len()`.
 #[allow(clippy::collapsible_else_if)]
-pub fn compute_error(qps: &QuantizedParameters, signal: &[i32], errors: &mut [i32]) {
+pub fn compute_error(qps: &QuantizedParameters, signal: &[i32], errors: &mut [i32]) -> bool {
     assert!(errors.len() >= signal.len());
     let maxabs_signal: u64 = find_max_abs::<16>(signal).into();
     // `Simd::reduce_sum` is avoided to mitigate overflow error.
@@ -389,21 +393,22 @@ pub fn compute_error(qps: &QuantizedParameters, signal: &[i32], errors: &mut [i3
         acc
     };
     let maxabs = maxabs_signal * sumabs_coefs as u64;
-    if maxabs < i32::MAX as u64 {
+    // the error `x - (prediction >> shift)` is bounded by `maxabs_signal + maxabs`.
+    if maxabs + maxabs_signal < i32::MAX as u64 {
         // larger lanes here can alleviate inefficiency of unaligned reads.
         compute_error_impl::<i32, 64>(qps, signal, errors);
+        true
     } else {
         // This is very inefficient, but should rarely happen in BPS=16bit case.
         let signal64: Vec<i64> = signal.iter().map(|v| (*v).into()).collect();
         let mut errors64 = vec![0i64; signal64.len()];
         compute_error_impl::<i64, 64>(qps, &signal64, &mut errors64);
-        for (v, p) in errors64
-            .into_iter()
-            .map(|v| v as i32)
-            .zip(errors.iter_mut())
-        {
-            *p = v;
+        let mut representable = true;
+        for (v, p) in errors64.into_iter().zip(errors.iter_mut()) {
+            representable &= v.unsigned_abs() <= i32::MAX as u64;
+            *p = v as i32;
         }
+        representable
     }
 }
 
